@@ -89,9 +89,17 @@ def engine(ctx):
         except Exception:
             pass
     t0 = time.time()
-    n = ctx.n(110, 1200)
+    n = ctx.n(80, 1200)
     base = ctx.seed * 100000
     cases = [gfi_run.make_case(base + s, depth=(2 if s % 3 else 3)) for s in range(n)]
+    # malformed stream (C22): static bodies that trace one address twice
+    ndup = ctx.n(6, 60)
+    k = 0
+    while sum(1 for c in cases if c["flavour"] == "dup") < ndup and k < 40 * ndup:
+        c = gfi_run.make_case(base + 50000 + k, depth=2, flavour="dup")
+        k += 1
+        if c["prog"][0] == "static" and len(c["prog"][1]) >= 2 and c["prog"][1][0][0] == c["prog"][1][-1][0]:
+            cases.append(c)
     outs = gfi_run.run_cases(cases, procs=14)
     t_impl = time.time() - t0
     kept_idx = [i for i, o in enumerate(outs) if "skip" not in o]
@@ -297,6 +305,8 @@ def norm(v):
     if isinstance(v, list):
         if v and v[0] == "M":
             return ["M", bool(v[1]), norm(v[2]) if v[1] else None]
+        if not v:
+            return None          # a zero-length stack of None outputs is None; of scalars an empty array: not distinguished
         return [norm(x) for x in v]
     return v
 
@@ -428,7 +438,9 @@ def oracle_C06(case, out):
         o, w = s["res"][1]
         orig = s["orig_obs"]
         sig = None
-        if masky and req_constraints(fwd["req"]):
+        if prog_has(case["prog"], ("switch", "or_else")):
+            sig = "switch-edit-bwd"           # K19 (c): the backward request is branch 0's whatever branch ran
+        elif masky and req_constraints(fwd["req"]):
             sig = "mask-off-update-bwd"       # K25: an update constraining a choice under a mask that is off afterwards
         if o["score"] != orig["score"] or not val_eq(norm(o["ret"]), norm(orig["ret"])) or look_dict(o) != look_dict(orig):
             bad.append(("the backward request does not restore the original trace",
@@ -491,12 +503,199 @@ KINDS = {
     "C10": {"project"},
     "C05": {"edit", "bwd"}, "C06": {"edit", "bwd"}, "C07": {"edit"},
 }
+# direct oracles of each property (combinator properties: everything the program text defines, on their programs)
+PROP_ORACLES = {"C05": ["C05", "edit_ref"], "C06": ["C06"], "C07": ["C07", "edit_ref"],
+                "C11": ["all"], "C12": ["all"], "C13": ["all"], "C14": ["all"], "C15": ["all"], "C16": ["all"]}
 # combinator-specific properties look at every step of the programs that contain the combinator
 CONTAINS = {
     "C11": ("vmap", "repeat"), "C12": ("scan", "iterate", "iterate_final", "accumulate", "reduce"),
-    "C13": ("switch", "or_else"), "C14": ("mask",), "C15": ("dimap", "map", "contramap"),
+    "C13": ("switch", "or_else"), "C14": ("mask", "masked_iterate", "masked_iterate_final"), "C15": ("dimap", "map", "contramap"),
     "C16": ("masked_iterate", "masked_iterate_final"),
 }
+
+
+# ---------------- C22 / C34 / C38 ----------------
+def oracle_C22(case, out):
+    """static language: the trace's choices are exactly the visited addresses; a re-used address raises AddressReuse;
+    assess raises MissingAddress exactly when a visited address has no value"""
+    bad = []
+    if case.get("flavour") == "dup":
+        for s in out["steps"]:
+            if s["kind"] in ("sim", "gen") and not (s["res"][0] == "err" and s["res"][1] == "EAddressReuse"):
+                bad.append(("a static body tracing one address twice did not raise AddressReuse", {"step": s["kind"], "res": s["res"][:2]}))
+        return bad
+    for s in out["steps"]:
+        if s["kind"] == "sim" and s["res"][0] == "ok":
+            o = s["res"][1]
+            try:
+                terms, _ = py_ref(case["core"], look_dict(o), case["args"])
+                visited = {t[0] for t in terms}
+                present = set(look_dict(o))
+                if visited != present:
+                    bad.append(("the trace's choice map does not hold exactly the visited addresses",
+                                {"only_visited": [list(p) for p in visited - present][:3], "only_in_choices": [list(p) for p in present - visited][:3]}))
+            except Missing as e:
+                bad.append(("a visited address has no value in the trace's choice map", {"addr": [list(c) for c in e.args[0]]}))
+            except (Unsupported, TypeError, IndexError):
+                pass
+        if s["kind"] == "assess_partial":
+            # the dropped site's addresses are visited: MissingAddress expected (unless the site makes no choice)
+            dropped = [("s", x) for x in s["dropped"]]
+            sim = next(x for x in out["steps"] if x["kind"] == "sim")
+            had = any(tuple(tuple(c) for c in p)[:len(dropped)] == tuple(dropped) for p, v in sim["res"][1]["look"] if v is not None)
+            want_err = had
+            got_err = s["res"][0] == "err" and s["res"][1] == "EMissingAddress"
+            if s["res"][0] in ("ok", "err") and want_err != got_err:
+                bad.append(("assess: MissingAddress is not raised exactly when a visited address has no value",
+                            {"dropped": s["dropped"], "visited_had_choices": had, "res": s["res"][:2]}))
+        if s["kind"] == "assess_full" and s["res"][0] == "err" and s["res"][1] == "EMissingAddress":
+            bad.append(("assess raised MissingAddress although every visited address has a value", {"res": s["res"][:3]}))
+    return bad
+
+
+def oracle_C34(case, out):
+    bad = []
+    sim = next((x for x in out["steps"] if x["kind"] == "sim" and x["res"][0] == "ok"), None)
+    if sim is None:
+        return bad
+    o = sim["res"][1]
+    r = ref_of(case, o)
+    for s in out["steps"]:
+        if s["kind"] != "subtrace" or s["res"][0] != "ok":
+            continue
+        sc, lk = s["res"][1]
+        pre = tuple(("s", x) for x in s["addr"])
+        parent = {k[len(pre):]: v for k, v in look_dict(o).items() if k[:len(pre)] == pre}
+        sub = {tuple(tuple(c) for c in p): v for p, v in lk if v is not None}
+        if sub != parent:
+            bad.append(("get_subtrace: the subtrace's choices differ from the parent's submap at that address", {"addr": s["addr"], "sub": str(sub)[:200], "parent": str(parent)[:200]}))
+        if r is not None:
+            want = sum(logpdf(d, v, p) for (path, d, v, p) in r[0] if path[:len(pre)] == pre)
+            if want != sc:
+                bad.append(("get_subtrace: the subtrace's score is not that call's contribution to the parent's score", {"addr": s["addr"], "score": sc, "contribution": want}))
+    return bad
+
+
+def oracle_C38(case, out):
+    bad = []
+    sim = next((x for x in out["steps"] if x["kind"] == "sim" and x["res"][0] == "ok"), None)
+    for s in out["steps"]:
+        if s["kind"] == "propose" and sim is not None and s["res"][0] == "ok":
+            if json.dumps(s["res"][1], sort_keys=True, default=str) != json.dumps(sim["res"][1], sort_keys=True, default=str):
+                bad.append(("propose differs from simulate with the same key", {"propose": str(s["res"][1])[:200], "simulate": str(sim["res"][1])[:200]}))
+        if s["kind"] == "wrappers":
+            if s["res"][0] == "err":
+                bad.append(("a derived GFI method raised where the primitive one works", {"error": s["res"][1:]}))
+                continue
+            if s["res"][0] != "ok":
+                continue
+            w = s["res"][1]
+            if w.get("project") is not None and w["project"][0] != w["project"][1]:
+                bad.append(("Trace.project differs from the generative function's project", {"values": w["project"]}))
+            uv = [json.dumps(x, sort_keys=True, default=str) for x in w["update_variants"]]
+            if len(set(uv)) != 1:
+                names = ["Update.edit", "Trace.update", "Trace.edit", "DiffAnnotate(identity).edit", "gen_fn.edit"]
+                bad.append(("Update.edit / Trace.update / Trace.edit / DiffAnnotate(identity) / gen_fn.edit disagree",
+                            {"differs": [n for n, x in zip(names, uv) if x != uv[0]]}))
+            ig = [json.dumps(x, sort_keys=True, default=str) for x in w["importance_generate"]]
+            if ig[0] != ig[1]:
+                bad.append(("importance differs from generate", {}))
+            et, ew, eb = w["empty_identity"]
+            if sim is not None and (json.dumps(et, sort_keys=True, default=str) != json.dumps(sim["res"][1], sort_keys=True, default=str) or ew != 0 or eb != "EmptyRequest"):
+                bad.append(("EmptyRequest with unchanged arguments is not the identity with weight 0", {"weight": ew, "bwd": eb}))
+    # EmptyRequest with changed arguments = empty Update; StaticRequest = addressed sub-requests: by the model (correspondence) + edit_ref
+    return bad + [b for b in oracle_edit_ref(case, out)]
+
+
+ORACLES.update({"C22": oracle_C22, "C34": oracle_C34, "C38": oracle_C38})
+PROP_ORACLES.update({"C22": ["C22"], "C34": ["C34"], "C38": ["C38"], "C35": ["C03", "C05"]})
+KINDS.update({"C22": {"sim", "gen", "assess_partial", "assess_full", "assess_own"}, "C34": {"subtrace"},
+              "C38": {"propose", "wrappers", "edit", "gen", "sim"}, "C35": {"gen", "edit"}})
+
+
+# ---------------- C04 / C08 / C23 ----------------
+def oracle_C04(case, out):
+    bad = []
+    sim = next((x for x in out["steps"] if x["kind"] == "sim" and x["res"][0] == "ok"), None)
+    for s in out["steps"]:
+        if s["kind"] == "sim_again" and sim is not None:
+            if s["res"][0] != "ok" or json.dumps(s["res"][1], sort_keys=True, default=str) != json.dumps(sim["res"][1], sort_keys=True, default=str):
+                bad.append(("simulate is not a function of (key, arguments): two calls differ", {"second": str(s["res"])[:200]}))
+        if s["kind"] == "echo" and s["res"][0] == "ok":
+            vals = s["res"][1]
+            seen = {}
+            for p, v in vals:
+                if v in seen:
+                    bad.append(("two random choices of one simulate call drew with the same PRNG key (key-echo probes returned the same key bits)",
+                                {"addr1": seen[v], "addr2": p, "key_bits": v}))
+                    break
+                seen[v] = p
+    return bad
+
+
+def oracle_C08(case, out):
+    bad = []
+    for s in out["steps"]:
+        if s["kind"] == "edit" and s["res"][0] == "ok":
+            rd = s["res"][1].get("retdiff")
+            if rd and rd["violations"]:
+                bad.append(("a return-value leaf tagged NoChange differs from the previous return value",
+                            {"req": s["req"], "args": s["args"], "old_args": s["old_args"], "leaves": rd["violations"]}))
+        if s["kind"] == "tagging" and s["res"][0] in ("ok", "err"):
+            if s["res"][0] == "err":
+                bad.append(("an edit fails under one honest tagging of its unchanged arguments and succeeds under another", {"alt": s["alt"], "changed": s["changed"], "error": s["res"][1:]}))
+                continue
+            o, w, b, rd = s["res"][1]
+            ref = s["ref"]
+            same = (json.dumps(o, sort_keys=True, default=str) == json.dumps(ref["trace"], sort_keys=True, default=str) and w == ref["weight"]
+                    and json.dumps(b, sort_keys=True, default=str) == json.dumps(ref["bwd"], sort_keys=True, default=str))
+            if not same:
+                bad.append(("tagging an unchanged argument NoChange instead of UnknownChange (or back) changed the edit's result",
+                            {"changed": s["changed"], "alt": s["alt"], "weight": [ref["weight"], w]}))
+            if rd and rd["violations"]:
+                bad.append(("a return-value leaf tagged NoChange differs from the previous return value (second tagging)", {"leaves": rd["violations"]}))
+    return bad
+
+
+def oracle_C23(case, out):
+    bad = []
+    byk = lambda k: next((x for x in out["steps"] if x["kind"] == k and x["res"][0] == "ok"), None)
+    for s in out["steps"]:
+        if s["kind"] == "jit":
+            if s["res"][0] == "err":
+                bad.append(("a GFI method that works eagerly raises inside jax.jit", {"error": s["res"][1:]}))
+                continue
+            if s["res"][0] != "ok":
+                continue
+            j = s["res"][1]
+            eq = lambda a, b: json.dumps(a, sort_keys=True, default=str) == json.dumps(b, sort_keys=True, default=str)
+            sim = byk("sim")
+            if sim and not eq(j["sim"], sim["res"][1]):
+                bad.append(("simulate differs between eager execution and jax.jit", {"eager": str(sim["res"][1])[:150], "jit": str(j["sim"])[:150]}))
+            a = byk("assess_own")
+            if a and "assess" in j and not eq(list(j["assess"]), list(a["res"][1])):
+                bad.append(("assess differs between eager execution and jax.jit", {"eager": a["res"][1], "jit": j["assess"]}))
+            gn = byk("gen")
+            if gn and "gen" in j and not eq(list(j["gen"]), list(gn["res"][1])):
+                bad.append(("importance differs between eager execution and jax.jit", {}))
+            pr = byk("project")
+            if pr and "project" in j and j["project"] != pr["res"][1]:
+                bad.append(("project differs between eager execution and jax.jit", {"eager": pr["res"][1], "jit": j["project"]}))
+        if s["kind"] == "vmapkeys":
+            if s["res"][0] == "err":
+                bad.append(("simulate raises under jax.vmap over keys", {"error": s["res"][1:]}))
+            elif s["res"][0] == "ok":
+                for i, (sl, single) in enumerate(s["res"][1]):
+                    if json.dumps(sl, sort_keys=True, default=str) != json.dumps(single, sort_keys=True, default=str):
+                        bad.append(("slice i of a simulate batched over keys differs from the unbatched call on key i", {"i": i}))
+                        break
+    return bad
+
+
+ORACLES.update({"C04": oracle_C04, "C08": oracle_C08, "C23": oracle_C23})
+PROP_ORACLES.update({"C04": ["C04"], "C08": ["C08"], "C23": ["C23"]})
+KINDS.update({"C04": {"sim", "sim_again", "echo", "gen"}, "C08": {"edit", "tagging"},
+              "C23": {"jit", "vmapkeys", "sim", "gen", "assess_own", "project"}})
 
 
 def prog_has(p, kinds):
@@ -573,7 +772,8 @@ def run_property(ctx, pid, oracles=None, extra_cov=None):
                     if nor > 3:
                         continue
                 ctx.fail("oracle", f"{what}: {json.dumps(detail, default=str)[:400]} (program {json.dumps(cases[i]['prog'])[:200]})",
-                         case={"seed": cases[i]["seed"], "depth": (2 if (cases[i]['seed'] % 100000) % 3 else 3), "oracle": name, "what": what},
+                         case={"seed": cases[i]["seed"], "depth": (2 if (cases[i]["flavour"] == "dup" or (cases[i]['seed'] % 100000) % 3) else 3),
+                               "flavour": cases[i]["flavour"], "oracle": name, "what": what},
                          signature=sig)
     ctx.cov["evaluations"] = nrel
     ctx.cov["traces_validated_against_impl"] = nrel - nm
@@ -606,7 +806,7 @@ def run_property(ctx, pid, oracles=None, extra_cov=None):
 
 def replay(case):
     """re-run one engine case and its oracle on the implementation"""
-    c = gfi_run.make_case(case["seed"], depth=case.get("depth", 2))
+    c = gfi_run.make_case(case["seed"], depth=case.get("depth", 2), flavour=case.get("flavour", "basic"))
     gfi_run.worker_init()
     o = gfi_run.run_case(c)
     o = json.loads(json.dumps(o, default=str))
